@@ -266,6 +266,12 @@ func (sdb *DbSqlite) verifyNodeHashes(fix bool) error {
 	// while reading child nodes. This may be expensive for a large DB, so
 	// we may want to eventually break this down into transactions for each node
 	// and its children.
+	// Writers are kept out with the write lock and all reads go through the
+	// transaction, otherwise a write that commits during the walk makes the
+	// verification see (and, when fixing, store) hashes that do not belong
+	// to the points it has read, and a fix collides with the writer.
+	sdb.writeLock.Lock()
+	defer sdb.writeLock.Unlock()
 	tx, err := sdb.db.Begin()
 	if err != nil {
 		return err
@@ -279,7 +285,7 @@ func (sdb *DbSqlite) verifyNodeHashes(fix bool) error {
 	}
 
 	// get root node to kick things off
-	rootNodes, err := sdb.getNodes(nil, "root", "all", "", true)
+	rootNodes, err := sdb.getNodes(tx, "root", "all", "", true)
 
 	if err != nil {
 		rollback()
@@ -297,7 +303,7 @@ func (sdb *DbSqlite) verifyNodeHashes(fix bool) error {
 
 	verify = func(node data.NodeEdge) error {
 		verifYield("verify-level")
-		children, err := sdb.getNodes(nil, node.ID, "all", "", true)
+		children, err := sdb.getNodes(tx, node.ID, "all", "", true)
 		if err != nil {
 			return err
 		}
